@@ -1,9 +1,350 @@
 //! hazmat merges and helpers, guts, Debug / Zeroize probes.
 
 use crate::exec::*;
+use crate::model::{self, MMode};
+use crate::ops::{d, first_diff, hx, mmode};
 use crate::plan::*;
+use crate::rng::Fnv;
 use std::sync::Arc;
+use zeroize::Zeroize;
 
-pub fn do_op2(_sh: &Arc<Shared>, _local: &mut TaskLocal, _op: &Op) -> OpResult {
-    Err(OpErr::Skip)
+macro_rules! get {
+    ($local:expr, $slot:expr, $variant:ident) => {
+        match $local.slots.get_mut(&$slot) {
+            Some(Slot::$variant(x)) => x,
+            _ => return Err(OpErr::Skip),
+        }
+    };
+}
+
+fn hazmat_mode<'a>(m: &'a MMode) -> Option<blake3::hazmat::Mode<'a>> {
+    match m {
+        MMode::Hash => Some(blake3::hazmat::Mode::Hash),
+        MMode::Keyed(k) => Some(blake3::hazmat::Mode::KeyedHash(k)),
+        MMode::ContextKey(k) => Some(blake3::hazmat::Mode::DeriveKeyMaterial(k)),
+        MMode::Derive(_) => None,
+    }
+}
+
+/// MMode::Derive(ctx) as the equivalent context-key mode (what hazmat callers must use)
+fn to_hazmat_mmode(m: &MMode) -> MMode {
+    match m {
+        MMode::Derive(c) => MMode::ContextKey(model::context_key(c)),
+        other => other.clone(),
+    }
+}
+
+unsafe fn raw_bytes<T>(x: &T) -> Vec<u8> {
+    std::slice::from_raw_parts(x as *const T as *const u8, std::mem::size_of::<T>()).to_vec()
+}
+
+/// secret words that must never show up in Debug output
+fn secret_words(mode: &MMode, absorbed: &[u8]) -> Vec<u32> {
+    let mut w = Vec::new();
+    let mut push = |b: &[u8]| {
+        for c in b.chunks_exact(4).take(16) {
+            w.push(u32::from_le_bytes([c[0], c[1], c[2], c[3]]));
+        }
+    };
+    match mode {
+        MMode::Keyed(k) | MMode::ContextKey(k) => push(k),
+        MMode::Derive(c) => push(&model::context_key(c)),
+        MMode::Hash => {}
+    }
+    push(absorbed);
+    w.retain(|x| *x > 0xFFFF); // small words collide with lengths and flags by chance
+    w
+}
+
+fn debug_leaks(text: &str, words: &[u32], bytes: &[u8]) -> Option<String> {
+    // numbers printed in the text, as whole tokens
+    let toks: Vec<&str> = text.split(|c: char| !c.is_ascii_alphanumeric()).filter(|t| !t.is_empty()).collect();
+    for w in words {
+        if *w < (1 << 24) {
+            continue;
+        }
+        let reps = [format!("{}", w), format!("{:x}", w), format!("{:08x}", w), format!("{:X}", w), format!("0x{:x}", w)];
+        for t in &toks {
+            if reps.iter().any(|r| r == t || r.trim_start_matches("0x") == t.trim_start_matches("0x")) {
+                return Some(format!("Debug output contains secret word {t}"));
+            }
+        }
+    }
+    // byte-list rendering, e.g. "[17, 203, 5, 99"
+    if bytes.len() >= 4 && bytes[..4].iter().any(|b| *b > 1) {
+        let pat = format!("{}, {}, {}, {}", bytes[0], bytes[1], bytes[2], bytes[3]);
+        if text.contains(&pat) {
+            return Some(format!("Debug output contains secret bytes \"{pat}\""));
+        }
+    }
+    None
+}
+
+/// after zeroize: no window of >= 8 consecutive non-zero bytes that survived unchanged
+fn stale_window(p: &[u8], q: &[u8]) -> Option<usize> {
+    let mut run = 0;
+    for i in 0..p.len().min(q.len()) {
+        if q[i] != 0 && q[i] == p[i] {
+            run += 1;
+            if run >= 8 {
+                return Some(i + 1 - 8);
+            }
+        } else {
+            run = 0;
+        }
+    }
+    None
+}
+
+pub fn do_op2(sh: &Arc<Shared>, local: &mut TaskLocal, op: &Op) -> OpResult {
+    match op {
+        Op::Merge { l, r, mode, kind, out, n } => {
+            let lc = match local.slots.get(l) {
+                Some(Slot::Cv(c)) => c.clone(),
+                _ => return Err(OpErr::Skip),
+            };
+            let rc = match local.slots.get(r) {
+                Some(Slot::Cv(c)) => c.clone(),
+                _ => return Err(OpErr::Skip),
+            };
+            let m = to_hazmat_mmode(&mmode(sh, mode)?);
+            let Some(hm) = hazmat_mode(&m) else { return Err(OpErr::Skip) };
+            let (k, f) = m.key_flags();
+            let lw = model::key_words(&lc.cv);
+            let rw = model::key_words(&rc.cv);
+            let node = model::parent_node(&k, f, &lw, &rw);
+            // the bytes covered, when both children are adjacent
+            let (bytes, off) = match (&lc.bytes, &rc.bytes) {
+                (Some(a), Some(b)) if rc.off == lc.off.wrapping_add(a.len() as u64) => {
+                    let mut v = a.clone();
+                    v.extend_from_slice(b);
+                    (Some(v), lc.off)
+                }
+                _ => (None, lc.off),
+            };
+            // is this the root of a valid decomposition of `bytes` (by the model's account)?
+            let whole_root = match &bytes {
+                Some(b) if off == 0 && b.len() > 1024 => {
+                    let want = m.root(b);
+                    if want.m == node.m && want.h == node.h && want.d == node.d { Some(b.clone()) } else { None }
+                }
+                _ => None,
+            };
+            match kind {
+                MergeKind::NonRoot => {
+                    let got = blake3::hazmat::merge_subtrees_non_root(&lc.cv, &rc.cv, hm);
+                    let want = node.cv_bytes();
+                    if got != want {
+                        return viol("result-mismatch", format!("merge_subtrees_non_root got {} want spec {}", hx(&got), hx(&want)));
+                    }
+                    local.slots.insert(*out, Slot::Cv(CvSlot { cv: got, mode: m.clone(), bytes, off }));
+                    Ok(Fnv::of(&got))
+                }
+                MergeKind::Root => {
+                    let got = *blake3::hazmat::merge_subtrees_root(&lc.cv, &rc.cv, hm).as_bytes();
+                    let want = node.root_hash();
+                    if got != want {
+                        return viol("result-mismatch", format!("merge_subtrees_root got {} want spec {}", hx(&got), hx(&want)));
+                    }
+                    if let Some(b) = whole_root {
+                        let os = crate::ops::oneshot(&m, &b);
+                        if got != os {
+                            return viol("result-mismatch", format!("subtree composition {} != one-shot hash {} of the {}-byte input", hx(&got), hx(&os), b.len()));
+                        }
+                        sh.probe("decomposition_root_equals_oneshot");
+                    }
+                    Ok(Fnv::of(&got))
+                }
+                MergeKind::RootXof => {
+                    let mut rd = blake3::hazmat::merge_subtrees_root_xof(&lc.cv, &rc.cv, hm);
+                    let mut buf = vec![0u8; *n];
+                    rd.fill(&mut buf);
+                    let want = node.stream(0, *n);
+                    if buf != want {
+                        let i = first_diff(&buf, &want);
+                        return viol("result-mismatch", format!("merge_subtrees_root_xof differs from spec at byte {i}"));
+                    }
+                    if let Some(b) = whole_root {
+                        let tw = crate::ops::twin_xof(&m, &b, 0, *n);
+                        if buf != tw {
+                            return viol("result-mismatch", format!("subtree composition xof differs from Hasher::finalize_xof of the {}-byte input", b.len()));
+                        }
+                        sh.probe("decomposition_xof_equals_hasher");
+                    }
+                    let dg = Fnv::of(&buf);
+                    local.slots.insert(*out, Slot::R(Box::new(RSlot { r: rd, node, pos: *n as u64 })));
+                    Ok(dg)
+                }
+            }
+        }
+        Op::HelperLeftLen { n } => {
+            if *n <= 1024 {
+                return Err(OpErr::Skip);
+            }
+            let got = blake3::hazmat::left_subtree_len(*n);
+            let want = model::largest_pow2_below(*n);
+            if got != want {
+                return viol("result-mismatch", format!("left_subtree_len({}) = {} want {}", n, got, want));
+            }
+            if *n > (1u64 << 63) {
+                sh.probe("left_subtree_len_above_2^63");
+            }
+            Ok(got)
+        }
+        Op::HelperMaxLen { off } => {
+            if *off == 0 || off % 1024 != 0 {
+                return Err(OpErr::Skip);
+            }
+            let got = blake3::hazmat::max_subtree_len(*off);
+            let want = 1024u64 << (off / 1024).trailing_zeros();
+            if got != Some(want) {
+                return viol("result-mismatch", format!("max_subtree_len({}) = {:?} want {}", off, got, want));
+            }
+            Ok(want)
+        }
+        #[allow(deprecated)]
+        Op::GutsChunk { data, off, len, counter, cuts, is_root, out } => {
+            let bytes = d(sh, *data, *off, *len)?;
+            if bytes.len() > 1024 || (*is_root && *counter != 0) {
+                return Err(OpErr::Skip);
+            }
+            let mut cs = blake3::guts::ChunkState::new(*counter);
+            let mut at = 0usize;
+            for c in cuts {
+                let c = (*c as usize).min(bytes.len() - at);
+                cs.update(&bytes[at..at + c]);
+                at += c;
+                if cs.len() != at {
+                    return viol("count-mismatch", format!("guts::ChunkState::len()={} after {} bytes", cs.len(), at));
+                }
+            }
+            cs.update(&bytes[at..]);
+            if cs.len() != bytes.len() {
+                return viol("count-mismatch", format!("guts::ChunkState::len()={} after {} bytes", cs.len(), bytes.len()));
+            }
+            // Debug text of the legacy ChunkState goes to the self-composition judge (C17)
+            let text = format!("{:?}", cs);
+            sh.stats.lock().unwrap().blobs.push((local.id, 0, format!("debug:guts:{}", out), text.clone().into_bytes(), vec![]));
+            let got = *cs.finalize(*is_root).as_bytes();
+            let node = model::chunk_node(&model::IV, 0, bytes, *counter);
+            let want = if *is_root { node.root_hash() } else { node.cv_bytes() };
+            if got != want {
+                return viol("result-mismatch", format!("guts chunk (counter {}, {} bytes, root {}) got {} want spec {}", counter, bytes.len(), is_root, hx(&got), hx(&want)));
+            }
+            if *counter >= 1 << 32 {
+                sh.probe("guts_chunk_counter_ge_2^32");
+            }
+            let boff = counter.wrapping_mul(1024);
+            local.slots.insert(*out, Slot::Cv(CvSlot { cv: got, mode: MMode::Hash, bytes: Some(bytes.to_vec()), off: boff }));
+            Ok(Fnv::of(&got))
+        }
+        #[allow(deprecated)]
+        Op::GutsParent { l, r, is_root, out } => {
+            let lc = match local.slots.get(l) {
+                Some(Slot::Cv(c)) => c.clone(),
+                _ => return Err(OpErr::Skip),
+            };
+            let rc = match local.slots.get(r) {
+                Some(Slot::Cv(c)) => c.clone(),
+                _ => return Err(OpErr::Skip),
+            };
+            let got = *blake3::guts::parent_cv(&blake3::Hash::from_bytes(lc.cv), &blake3::Hash::from_bytes(rc.cv), *is_root).as_bytes();
+            let node = model::parent_node(&model::IV, 0, &model::key_words(&lc.cv), &model::key_words(&rc.cv));
+            let want = if *is_root { node.root_hash() } else { node.cv_bytes() };
+            if got != want {
+                return viol("result-mismatch", format!("guts::parent_cv(root {}) got {} want spec {}", is_root, hx(&got), hx(&want)));
+            }
+            let (bytes, off) = match (&lc.bytes, &rc.bytes) {
+                (Some(a), Some(b)) if rc.off == lc.off.wrapping_add(a.len() as u64) => {
+                    let mut v = a.clone();
+                    v.extend_from_slice(b);
+                    (Some(v), lc.off)
+                }
+                _ => (None, lc.off),
+            };
+            if *is_root {
+                if let Some(b) = &bytes {
+                    if off == 0 {
+                        let want_root = MMode::Hash.root(b);
+                        if want_root.m == node.m {
+                            let os = crate::ops::oneshot(&MMode::Hash, b);
+                            if got != os {
+                                return viol("result-mismatch", format!("guts composition != one-shot hash of the {}-byte input", b.len()));
+                            }
+                            sh.probe("guts_root_equals_oneshot");
+                        }
+                    }
+                }
+            }
+            local.slots.insert(*out, Slot::Cv(CvSlot { cv: got, mode: MMode::Hash, bytes, off }));
+            Ok(Fnv::of(&got))
+        }
+        Op::DebugFmt { slot, pretty } => {
+            let (text, words, first): (String, Vec<u32>, Vec<u8>) = match local.slots.get(slot) {
+                Some(Slot::H(hs)) => {
+                    let t = if *pretty { format!("{:#?}", hs.h) } else { format!("{:?}", hs.h) };
+                    (t, secret_words(&hs.mode, &hs.absorbed), hs.absorbed.iter().take(4).copied().collect())
+                }
+                Some(Slot::R(rs)) => {
+                    let t = if *pretty { format!("{:#?}", rs.r) } else { format!("{:?}", rs.r) };
+                    // the reader's secrets: its root node words
+                    let mut w: Vec<u32> = rs.node.h.iter().chain(rs.node.m.iter()).copied().filter(|x| *x > 0xFFFF).collect();
+                    w.dedup();
+                    (t, w, vec![])
+                }
+                _ => return Err(OpErr::Skip),
+            };
+            if let Some(m) = debug_leaks(&text, &words, &first) {
+                return viol("leak-debug", m);
+            }
+            sh.probe("debug_formatted");
+            sh.stats.lock().unwrap().blobs.push((local.id, 0, format!("debug:{}", slot), text.clone().into_bytes(), vec![]));
+            // positions, counts, flags and the platform are allowed in the text; the digest keeps all of it
+            Ok(Fnv::of(text.as_bytes()))
+        }
+        Op::Zeroize { slot } => {
+            let s = local.slots.remove(slot);
+            let (what, p, q): (&str, Vec<u8>, Vec<u8>) = match s {
+                Some(Slot::H(mut hs)) => {
+                    if hs.absorbed.len() % 1024 >= 8 {
+                        sh.probe("zeroize_hasher_with_partial_block");
+                    }
+                    if (hs.absorbed.len() / 1024).count_ones() >= 2 {
+                        sh.probe("zeroize_hasher_with_stack_ge2");
+                    }
+                    let p = unsafe { raw_bytes(&hs.h) };
+                    hs.h.zeroize();
+                    let q = unsafe { raw_bytes(&hs.h) };
+                    ("Hasher", p, q)
+                }
+                Some(Slot::R(mut rs)) => {
+                    if rs.pos % 64 != 0 {
+                        sh.probe("zeroize_reader_mid_block");
+                    }
+                    let p = unsafe { raw_bytes(&rs.r) };
+                    rs.r.zeroize();
+                    let q = unsafe { raw_bytes(&rs.r) };
+                    ("OutputReader", p, q)
+                }
+                Some(Slot::Cv(c)) => {
+                    let mut h = blake3::Hash::from_bytes(c.cv);
+                    let p = unsafe { raw_bytes(&h) };
+                    h.zeroize();
+                    let q = unsafe { raw_bytes(&h) };
+                    if q.iter().any(|b| *b != 0) {
+                        return viol("leak-zeroize", "Hash not all-zero after zeroize()".into());
+                    }
+                    ("Hash", p, q)
+                }
+                _ => return Err(OpErr::Skip),
+            };
+            if let Some(i) = stale_window(&p, &q) {
+                return viol("leak-zeroize", format!("{what}: 8 bytes at offset {i} of the object survived zeroize() unchanged ({})", hx(&q[i..i + 8])));
+            }
+            sh.probe("zeroized");
+            sh.stats.lock().unwrap().blobs.push((local.id, 1, format!("zeroize:{}:{}", what, slot), p, q));
+            Ok(0x2e40)
+        }
+        _ => Err(OpErr::Skip),
+    }
 }
